@@ -67,6 +67,13 @@ coordinator that served the previous page (`stable_coordinator`). -/
 def pageParams (ex : ExecParams) (_page : Nat) (_coord : Option Nat) : ExecParams :=
   { idem := ex.idem, cl := ex.cl, policy := ex.policy, timeout := ex.timeout }
 
+/-- `SingleConnectionPagingExecutor` (`pager.rs:535-600`; `Connection::execute_iter`, used for the control connection's
+queries): the third `RequestExecutionParams` literal.  The retry policy is hard-coded `FallthroughRetryPolicy` (`:557`),
+the idempotence flag is the prepared statement's, the consistency is the statement's or the connection's default
+(`connection.rs:1161-1163`); the plan is the one connection. -/
+def singleConnectionPagerParams (preparedIdem : Bool) (cl : Consistency) (timeout : Option Nat) : ExecParams :=
+  { idem := preparedIdem, cl := cl, policy := .fallthrough, timeout := timeout }
+
 /-- A paged iteration at frame level: page `j` is one run of the execution core (`runWire`) with `pageParams`, over
 the plan `plans j` (previous coordinator first), with the answers `answers j`; the iteration goes on to the next
 page only when the fetch completed. -/
